@@ -60,7 +60,7 @@ func (r *runner) probeAll(rng *hlib.Rng, v *view, all bool) {
 }
 
 // one generated sequential history; unrestricted = may put an empty MemSet on a root that
-// only exists as a pending tree (known finding 1)
+// only exists as a pending tree (former finding 1, fixed in chain33: the tree must survive)
 func genSeq(rng *hlib.Rng, kind string, nops int, unrestricted bool) (*runner, *view) {
 	h := &History{Kind: kind, Prefix: rng.Chance(1, 3), Queue: rng.Chance(1, 3)}
 	tables(rng, h, rng.Range(3, 7))
@@ -147,7 +147,7 @@ func genSeq(rng *hlib.Rng, kind string, nops int, unrestricted bool) (*runner, *
 	return r, v
 }
 
-// fixed shapes: the witness of finding 1, and two forks of one parent in every order
+// fixed shapes: the witness of the former finding 1 (now a regression case), and two forks of one parent in every order
 func fixedHistories() []*History {
 	k := []string{hex.EncodeToString([]byte("k1")), hex.EncodeToString([]byte("k2")), hex.EncodeToString([]byte("k3"))}
 	vv := []string{hex.EncodeToString([]byte("v1")), hex.EncodeToString([]byte("v2"))}
